@@ -234,7 +234,7 @@ def explicit_fsync(crate):
     iref, safe, ab, act, blob = _inner_state(crate, ex, st)
     storage = Obj("storage::core::Storage<K>")
     arc = Obj("std::sync::Arc<storage::core::Inner<K>>")
-    arc.fields[(None, 7001)] = st.mem[iref.cell]
+    arc.fields[(None, 7001)] = Ref(iref.cell, (), True, "&storage::core::Inner<K>")
     storage.fields[(None, crate.field_index("Storage", "inner"))] = arc
     # keep the Inner reachable under the same cell for _safe_in(): re-point iref to the Arc's payload
     sc = st.new_cell(storage)
